@@ -414,7 +414,9 @@ func FNull() *modelv1.FieldValue {
 }
 
 // TF wraps tag values as one write-side tag family.
-func TF(v ...*modelv1.TagValue) *modelv1.TagFamilyForWrite { return &modelv1.TagFamilyForWrite{Tags: v} }
+func TF(v ...*modelv1.TagValue) *modelv1.TagFamilyForWrite {
+	return &modelv1.TagFamilyForWrite{Tags: v}
+}
 
 // ---------------------------------------------------------------------------------------------------------------
 // writes: real streaming Write RPCs; every message must be acknowledged with STATUS_SUCCEED
